@@ -212,11 +212,17 @@ def run_shard(shard):
                 variants.append((frozenset(), None, ords[0], "none"))  # consumed single outputs carry the value None
                 variants.append((frozenset(), None, ords[0], "tuple1"))  # ... or a 1-tuple / empty tuple (must not be unpacked)
             variants.append((frozenset(), None, ords[0], "falsy"))  # defaults are None, bound values '' / (), run-time values 0
+            variants.append((frozenset(), None, ords[0], "generators"))  # every single-output node is a (sync / async) generator node
             for omit, select, order, none_variant in variants:
                 if True:
                     for runner in ("sync", "async"):
                         prog, provided = dag_program(shape, ext_src, out_default, order, is_async=(runner == "async"))
-                        if none_variant == "falsy":
+                        if none_variant == "generators":
+                            for sp in prog["nodes"]:
+                                if len(sp.get("outs", [])) == 1:
+                                    sp["gen"] = True
+                            acc.counters["runs_with_generator_nodes"] += 1
+                        elif none_variant == "falsy":
                             for sp in prog["nodes"]:
                                 sp["defaults"] = {q: None for q in sp.get("defaults", {})}
                             if prog.get("bind"):
